@@ -1,5 +1,6 @@
 SPECIFICATION Spec
-CONSTANTS NP = 2 MaxRuns = 2 MaxTouch = 2
+CONSTANTS MaxRuns = 2 MaxTouch = 2
+  Scens <- ScenExpC
   Settings <- SettingsDefault
   CreatedSetsChanged = TRUE
   KeepHistory = TRUE
